@@ -64,9 +64,10 @@ static std::string features(const std::string &pat)
 }
 
 static const char ADDR_ALPHA[] = "abc/0129#{,";
-static const char *TYPES[9] = {"", "i", "f", "ii", "if", "T", "F", "s", "iii"};
+static const int NT = 12;
+static const char *TYPES[NT] = {"", "i", "f", "ii", "if", "T", "F", "s", "iii", "[i]", "[ii]", "i[ff]"};
 
-static char g_msg[64];
+static char g_msg[256];
 // lay out "addr\0.. ,types\0.." ; returns pointer to message start
 static void set_addr(const std::string &a, size_t &tt_off)
 {
@@ -102,7 +103,7 @@ static void check(const std::string &pat, const refmatch::Pattern &rp, const std
 static void run_pattern(const std::string &pat, const std::vector<std::string> &addrs)
 {
     refmatch::Pattern rp = refmatch::split(pat);
-    Verdict tv[9]; for(int t = 0; t < 9; ++t) tv[t] = refmatch::types_verdict(rp, TYPES[t]);
+    Verdict tv[NT]; for(int t = 0; t < NT; ++t) tv[t] = refmatch::types_verdict(rp, TYPES[t]);
     uint64_t matched = 0;
     for(auto &a : addrs) {
         bool refpath = refmatch::path_match(rp.path, 0, a, 0);
@@ -117,9 +118,9 @@ static void run_pattern(const std::string &pat, const std::vector<std::string> &
             vp::violation(std::string(refpath ? "must-match" : "must-not-match") + "|rtosc_match_path|" + shape, "p=" + pat + "|a=" + a + "|t=", "pattern '" + pat + "' address '" + a + "'");
         }
         if(refpath) ++matched;
-        for(int t = 0; t < 9; ++t) { set_types(off, TYPES[t]); check(pat, rp, a, refpath, off, t, tv); }
+        for(int t = 0; t < NT; ++t) { set_types(off, TYPES[t]); check(pat, rp, a, refpath, off, t, tv); }
     }
-    vp::state(); vp::eval(addrs.size() * 9);
+    vp::state(); vp::eval(addrs.size() * NT);
     if(matched) vp::nontrivial(vp::fnv(pat));
     vp::outcome(features(pat) + (matched ? ":some-address-matches" : ":no-address-matches"));
     vp::trace();
@@ -140,7 +141,9 @@ int main(int argc, char **argv)
     std::vector<std::string> pats;
     static const char *SPECS[] = {":", ":i", ":f", ":ii", ":T:F", "::i:f", ":i:ii", ":ii:i", ":i:f:s",
                                   // non-final alternatives of two and three tags that differ from a later one at every position
-                                  ":ii:f", ":if:s:T", ":iii:if:i", ":fi:ii:"};
+                                  ":ii:f", ":if:s:T", ":iii:if:i", ":fi:ii:",
+                                  // alternatives with array brackets
+                                  ":[ii]", ":i:[ii]", ":ii:[ii]:i[ff]", "::i[ff]:f"};
     for(auto &p : paths) { pats.push_back(p); pats.push_back(p + ":i"); }
     for(auto &a : R) for(const char *sp : SPECS) { if(well_formed(a)) { pats.push_back(a + sp); pats.push_back(a + "/" + sp); } }
     { std::set<std::string> u; std::vector<std::string> q; for(auto &p : pats) if(u.insert(p).second) q.push_back(p); pats.swap(q); }
@@ -151,7 +154,7 @@ int main(int argc, char **argv)
     vp::bound("patterns", (long long)pats.size());
     vp::bound("pattern_grammar", "seg{1..3} ['/'] [':'types(':'types)*]; seg = lit | lit#N | {alt,..} | lit/lit; lit over {a,b} len 0..2; N in {1,2,10,12}; alternatives from {a,b,ab,ba,aa} in lists of 1..3 in every order");
     vp::bound("addresses", "all strings of length 0.." + std::to_string(maxlen) + " over 'abc/0129#{,': " + std::to_string(addrs.size()));
-    vp::bound("type_strings", "'' i f ii if T F s iii");
+    vp::bound("type_strings", "'' i f ii if T F s iii [i] [ii] i[ff]");
     for(size_t k = 0; k < pats.size(); k += pats.size() / 6 + 1) vp::sample("pattern '" + pats[k] + "' x " + std::to_string(addrs.size()) + " addresses x 9 type strings");
 
     if(vp::replaying()) {
@@ -176,13 +179,36 @@ int main(int argc, char **argv)
         for(unsigned long N : {1ul, 2ul, 10ul, 12ul, 16ul, 100ul, 128ul, 999999999ul}) for(auto &tail : tails) {
             std::string pat = "x#" + std::to_string(N) + tail;
             std::vector<std::string> idx = {"0", "00", "007", "1", "9", "09", "10", "010", "127", "128", std::to_string(N - 1), std::to_string(N), std::to_string(N + 1),
-                                            "999999999", "099999999", "000000000", "000000001", "999999998"};
+                                            "999999999", "099999999", "000000000", "000000001", "999999998",
+                                            "00000000000000000000", "00000000000000000007", "0000000000000000000000000000015", "00000000000000000000000000000000000000009"};
             { std::string z = std::to_string(N - 1); while(z.size() < 9) z = "0" + z; idx.push_back(z); }
             std::vector<std::string> as; for(auto &i : idx) { as.push_back("x" + i + tail); as.push_back("x" + i); as.push_back("x" + i + tail + "q"); as.push_back("x" + tail); }
             run_pattern(pat, as);
             run_pattern(pat + "/", as);
         }
         vp::bound("enumeration_family", "x#N[/y|z] for N in {1,2,10,12,16,100,128,999999999} x indices 0,00,007,N-1,N,N+1,zero-padded to 9 digits,999999999");
+    }
+    // ---- long patterns and addresses (beyond the exhaustive lengths): literal segments of 10..60 characters, lists of 8
+    //      alternatives, five segments, each against the exact address and every single-character edit of it
+    if(vp::mine(1)) {
+        std::vector<std::pair<std::string, std::string>> pa;   // (pattern, an address it matches)
+        for(size_t L : {10u, 16u, 17u, 31u, 32u, 33u, 60u}) {
+            std::string lit; for(size_t k = 0; k < L; ++k) lit += (char)('a' + (k * 7) % 26);
+            pa.push_back({lit, lit}); pa.push_back({lit + "/", lit + "/x"}); pa.push_back({lit + "#16/" + lit, lit + "15/" + lit});
+            pa.push_back({"{" + lit + "," + lit.substr(0, L - 1) + "," + lit + "x}", lit + "x"});
+        }
+        pa.push_back({"{a,b,c,d,e,f,g,hh}#1000/{x,y}z", "hh999/yz"});
+        pa.push_back({"a/b#2/c#3/d#4/e:i", "a/b1/c2/d3/e"});
+        pa.push_back({"seg1/seg2/seg3/seg4/seg5/", "seg1/seg2/seg3/seg4/seg5/leaf"});
+        for(auto &x : pa) {
+            std::set<std::string> as = {x.second};
+            for(size_t i = 0; i <= x.second.size(); ++i) for(char c : std::string("ab/0x")) as.insert(x.second.substr(0, i) + c + x.second.substr(i));
+            for(size_t i = 0; i < x.second.size(); ++i) { as.insert(x.second.substr(0, i) + x.second.substr(i + 1)); for(char c : std::string("ab/0x")) { std::string t = x.second; t[i] = c; as.insert(t); } }
+            std::vector<std::string> av(as.begin(), as.end());
+            for(auto &a : av) if(a.size() + 16 > sizeof g_msg) { fprintf(stderr, "harness: message buffer too small\n"); return 3; }
+            run_pattern(x.first, av);
+        }
+        vp::bound("long_family", "literal segments of 10..60 characters, 3 long alternatives, 8 alternatives with a 4-digit enumeration, five segments: exact address and every single-character insertion/removal/substitution");
     }
     vp::outcome("verdict:must-match", g_must); vp::outcome("verdict:must-not-match", g_mustnot); vp::outcome("verdict:dont-care(type extension)", g_dc);
     return vp::finish();
